@@ -246,6 +246,9 @@ fn add_near_twins(rng: &mut Rng, a: &mut Module, b: &Module) {
     }
     near!(a.frame, b.frame, |y: &mut Frame, r: &mut Rng| if r.coin() { y.rate += 1 } else { y.scaling_unit += 1 });
     near!(a.measurement, b.measurement, |y: &mut Measurement, r: &mut Rng| match r.below(5) {
+        0 if !y.annotation.is_empty() => {
+            y.annotation.pop();
+        }
         0 => y.resolution += 1,
         1 => y.accuracy += 0.5,
         2 => y.upper_limit += 1.0,
@@ -259,14 +262,28 @@ fn add_near_twins(rng: &mut Rng, a: &mut Module, b: &Module) {
     });
     near!(a.axis_pts, b.axis_pts, |y: &mut AxisPts, r: &mut Rng| if r.coin() { y.address += 4 } else { y.max_axis_points += 1 });
     near!(a.blob, b.blob, |y: &mut Blob, r: &mut Rng| if r.coin() { y.size += 1 } else { y.start_address += 1 });
-    near!(a.instance, b.instance, |y: &mut Instance, _r: &mut Rng| y.start_address += 8);
+    // A's variant may also differ only in a nested list (one member fewer than B's, or one more)
+    near!(a.instance, b.instance, |y: &mut Instance, r: &mut Rng| {
+        let n = y.overwrite.len();
+        if n > 0 && r.coin() {
+            y.overwrite.swap_remove_idx(n - 1);
+        } else if r.coin() {
+            y.overwrite.push(Overwrite::new(format!("ow_extra_{}", r.below(1000)), 1));
+        } else {
+            y.start_address += 8;
+        }
+    });
     near!(a.compu_method, b.compu_method, |y: &mut CompuMethod, r: &mut Rng| match r.below(3) {
         0 => y.format.push('1'),
         1 => y.unit.push('x'),
         _ => y.conversion_type = ConversionType::TabNointp,
     });
     near!(a.compu_tab, b.compu_tab, |y: &mut CompuTab, _r: &mut Rng| y.tab_entry.push(TabEntryStruct::new(99.0, 99.0)));
-    near!(a.compu_vtab, b.compu_vtab, |y: &mut CompuVtab, _r: &mut Rng| y.number_value_pairs += 1);
+    near!(a.compu_vtab, b.compu_vtab, |y: &mut CompuVtab, r: &mut Rng| if !y.value_pairs.is_empty() && r.coin() {
+        y.value_pairs.pop();
+    } else {
+        y.number_value_pairs += 1;
+    });
     near!(a.compu_vtab_range, b.compu_vtab_range, |y: &mut CompuVtabRange, _r: &mut Rng| y.number_value_triples += 1);
     near!(a.unit, b.unit, |y: &mut Unit, r: &mut Rng| if r.coin() { y.display.push('2') } else { y.unit_type = UnitType::ExtendedSi });
     near!(a.record_layout, b.record_layout, |y: &mut RecordLayout, r: &mut Rng| if r.coin() {
@@ -279,7 +296,14 @@ fn add_near_twins(rng: &mut Rng, a: &mut Module, b: &Module) {
     near!(a.typedef_measurement, b.typedef_measurement, |y: &mut TypedefMeasurement, r: &mut Rng| if r.coin() { y.resolution += 1 } else { y.upper_limit += 1.0 });
     near!(a.typedef_axis, b.typedef_axis, |y: &mut TypedefAxis, _r: &mut Rng| y.max_axis_points += 1);
     near!(a.typedef_characteristic, b.typedef_characteristic, |y: &mut TypedefCharacteristic, _r: &mut Rng| y.max_diff += 1.0);
-    near!(a.typedef_structure, b.typedef_structure, |y: &mut TypedefStructure, _r: &mut Rng| y.total_size += 1);
+    near!(a.typedef_structure, b.typedef_structure, |y: &mut TypedefStructure, r: &mut Rng| {
+        let n = y.structure_component.len();
+        if n > 0 && r.chance(2, 3) {
+            y.structure_component.swap_remove_idx(n - 1);
+        } else {
+            y.total_size += 1;
+        }
+    });
     if let (Some(pa), Some(pb)) = (&mut a.mod_par, &b.mod_par) {
         near!(pa.memory_segment, pb.memory_segment, |y: &mut MemorySegment, r: &mut Rng| if r.coin() { y.address += 1 } else { y.size += 1 });
     }
@@ -750,6 +774,7 @@ pub fn run_c09(args: &Args, rec: &mut Recorder) {
         // referrer lookup in R: (kind, marker) -> name
         let er = collect(mr);
         let ea = collect(ma0);
+        let eb = collect(mb0);
         for e in &edges_b {
             if is_conventional(e.ctx.ns, &e.target) {
                 continue;
@@ -842,6 +867,22 @@ pub fn run_c09(args: &Args, rec: &mut Recorder) {
                             ),
                             witness(&a0, &b0, ""),
                         );
+                    } else {
+                        // same marker: near twins (A's variant of B's element, cloned with its marker
+                        // and changed in one place) are told apart by their name-free content
+                        let fb = eb.iter().find(|x| x.kind == tb.0 && x.marker == tb.1 && x.name == e.target).map(|x| &x.fp);
+                        let fr = er.iter().find(|x| x.kind == k2 && x.name == cp.target).map(|x| &x.fp);
+                        if fb.is_some() && fr.is_some() && fb != fr {
+                            rec.violation(
+                                &format!("reference silently retargeted by the merge at site {}", e.ctx.site),
+                                &format!(
+                                    "{} {} (now {}) referred to {} {} in B; after the merge the reference reads `{}`, which designates an element of different content (A's variant): `{}` instead of `{}`",
+                                    e.ctx.kind, e.ctx.rname, r_name, tb.0, e.target, cp.target,
+                                    clip(fr.unwrap(), 300), clip(fb.unwrap(), 300)
+                                ),
+                                witness(&a0, &b0, ""),
+                            );
+                        }
                     }
                 }
             }
